@@ -576,6 +576,11 @@ func (c *EvalCtx) selector(e *ast.SelectorExpr) tv {
 	ex := c.ex
 	// package-qualified?
 	if id, ok := e.X.(*ast.Ident); ok {
+		if id.Name == "caller" {
+			if v, ok := c.vars["caller."+e.Sel.Name]; ok {
+				return v
+			}
+		}
 		if _, shadow := c.vars[id.Name]; !shadow {
 			if imp := c.ex.resolveImport(c.pkgPath, id.Name); imp != nil {
 				if obj := imp.Scope().Lookup(e.Sel.Name); obj != nil {
@@ -969,7 +974,7 @@ func (c *EvalCtx) call(e *ast.CallExpr) tv {
 			if c.wf != nil {
 				c.wf.facts = append(c.wf.facts, p.Implies(p.Eq(ex.dynType(x), ex.typeID(t)), p.Lt(x, c.st.heapTop)))
 			}
-			return tv{x, t}
+			return tv{ex.reifyPtr(x, t), t}
 		case "typeIs":
 			// typeIs(x, T): dynamic type of interface value x is T
 			x := c.asTerm(c.eval(e.Args[0]))
@@ -1532,6 +1537,9 @@ func (ex *Exec) staticRegionsSig(c *FuncContract, m *Clause, names []string, pty
 		case *ast.Ident:
 			return typeOfIdent(e.Name)
 		case *ast.SelectorExpr:
+			if id, ok := e.X.(*ast.Ident); ok && id.Name == "caller" {
+				return typeOfIdent("caller." + e.Sel.Name)
+			}
 			xt := typeOf(e.X)
 			if xt == nil {
 				return nil
